@@ -55,7 +55,7 @@ Example pp_state_absent_satisfiable :
   keeps ex_fun1 ex_fun2 "remove_unstable_phases" chk_pp e /\
   keeps ex_fun1 ex_fun2 "called:error_msg" chk_pp e.
 Proof.
-  cbv zeta. pose proof ln10_lower as HL.
+  cbv zeta. pose proof ln10_gt_2 as HL.
   unfold keeps, res_pp, chk_pp, ex_env. cbn. q2r.
   repeat split; intros; try lra.
 Qed.
@@ -89,7 +89,7 @@ Proof.
   - exists (3 / 10). split.
     + left. reflexivity.
     + lra.
-  - cbv zeta. cbn. pose proof ln10_lower. repeat split; try lra.
+  - cbv zeta. cbn. pose proof ln10_gt_2. repeat split; try lra.
 Qed.
 
 (* the model() skeleton: a state in which the final pass leaves through `break` with stop_program unset *)
